@@ -26,15 +26,38 @@ class FusedModel:
         self.f0 = method(facts, T_READ, self.adt, name)
         file = self.f0.file
         self.f = inline.inlined(facts, self.f0.id, stop=lambda d: facts.fns[d].rec.get("local") and facts.fns[d].file != file, extern_ok=Q.std_small)
-        slots = shared.find_slot_paths(facts, self.adt, r"^std::option::Option<R>$")
+        # the slot holding the inner reader: an Option<R>, or an enum of the crate with one variant carrying the reader and one empty variant
+        def slot_kind(ty):
+            if ty == "std::option::Option<R>":
+                return ("option",)
+            a = facts.adts.get(re.sub(r"<R>$", "", ty))
+            if a is not None and a["kind"] == "Enum" and len(a["variants"]) == 2:
+                full = [v for v in a["variants"] if len(v["fields"]) == 1 and v["fields"][0]["ty"] == "R"]
+                empty = [v for v in a["variants"] if not v["fields"]]
+                if len(full) == 1 and len(empty) == 1:
+                    return ("enum", a["id"], full[0]["name"], full[0]["fields"][0]["name"], empty[0]["name"])
+            return None
+        slots = shared.find_slot_paths(facts, self.adt, lambda ty: slot_kind(ty) is not None)
         if len(slots) != 1:
             raise CheckerError("fused rules: the slot holding the inner reader of %s not found (%s)" % (self.adt, slots))
         self.slot = slots[0]
+        owner, fld = shared.owner_of_path(facts, self.adt, self.slot)
+        self.kind = slot_kind([x["ty"] for x in facts.adt(owner)["variants"][0]["fields"] if x["name"] == fld][0])
         self.key = (1, "*") + tuple("." + x for x in self.slot)
+        if self.kind[0] == "option":
+            self.FULL, self.EMPTY = ("some", INNER), ("none",)
+        else:
+            self.FULL, self.EMPTY = ("agg", self.kind[1], self.kind[2], {self.kind[3]: INNER}), ("agg", self.kind[1], self.kind[4], {})
+
+    def is_full(self, v):
+        return v == self.FULL or (v and v[0] == "init") or (v and v[0] in ("refined", "agg") and absint.variant_of(v) == (self.kind[2] if self.kind[0] == "enum" else "Some") and absint.contains(v, INNER))
+
+    def is_empty(self, v):
+        return v == self.EMPTY or (v and v[0] in ("agg", "refined") and self.kind[0] == "enum" and absint.variant_of(v) == self.kind[4])
 
     def run(self, inner, answer):
         st = symex.Sym(self.f)
-        st.write_key(self.key, ("some", INNER) if inner else ("none",))
+        st.write_key(self.key, self.FULL if inner else self.EMPTY)
         def on_call(bb, t, args, s2):
             if t.get("callee") in READS:
                 return answer
@@ -66,16 +89,16 @@ def fused_rules(ctx, rule_stub="C03.4", rule_release="C03.4", rule_retry=None):
     ctx.touch(M.f)
     res = {}
     rows = M.run(False, ok_(7))
-    ok = bool(rows) and all(r["end"] == "return" and is_ok(r["ret"], 0) and r["reads"] == 0 and r["slot"] == ("none",) for r in rows)
+    ok = bool(rows) and all(r["end"] == "return" and is_ok(r["ret"], 0) and r["reads"] == 0 and M.is_empty(r["slot"]) for r in rows)
     if rule_stub:
         ctx.ob(rule_stub, "%s|empty-stays-eof" % M.f0.id, "once emptied, the fused reader returns Ok(0) forever, without touching any reader", ok, where,
                None if ok else str([(r["end"], symex.sym_str(r["ret"] or ("unknown",))[:40], r["reads"]) for r in rows][:3]))
     z = M.run(True, ok_(0))
-    okz = bool(z) and all(r["end"] == "return" and is_ok(r["ret"], 0) and r["reads"] == 1 and r["slot"] == ("none",) for r in z)
+    okz = bool(z) and all(r["end"] == "return" and is_ok(r["ret"], 0) and r["reads"] == 1 and M.is_empty(r["slot"]) for r in z)
     n = M.run(True, ok_(7))
-    okn = bool(n) and all(r["end"] == "return" and is_ok(r["ret"], 7) and r["reads"] == 1 and r["slot"] == ("some", INNER) for r in n)
+    okn = bool(n) and all(r["end"] == "return" and is_ok(r["ret"], 7) and r["reads"] == 1 and M.is_full(r["slot"]) for r in n)
     e = M.run(True, ERR)
-    oke = bool(e) and all(r["end"] == "return" and r["ret"] is not None and r["ret"][0] == "agg" and r["ret"][2] == "Err" and r["reads"] == 1 and r["slot"] == ("some", INNER) for r in e)
+    oke = bool(e) and all(r["end"] == "return" and r["ret"] is not None and r["ret"][0] == "agg" and r["ret"][2] == "Err" and r["reads"] == 1 and M.is_full(r["slot"]) for r in e)
     def show(rows):
         return str([(r["end"], symex.sym_str(r["ret"] or ("unknown",))[:40], r["reads"], symex.sym_str(r["slot"])[:30]) for r in rows][:3])
     if rule_release:
